@@ -281,7 +281,11 @@ func (prop) Generate(rng *core.Rand, tier string, emit func(string)) {
 			continue
 		}
 		if k%12 == 2 {
-			emit(genCf(prx))
+			if (k/12)%2 == 0 {
+				emit(genCf(prx))
+			} else {
+				emit(genRp(prx))
+			}
 			continue
 		}
 		pool := genPool(rng, tier)
